@@ -349,6 +349,10 @@ func (r *seqRun) cell(t Term) (string, bool) {
 			a, ok := r.cell(x.Recv)
 			return x.Fun.Name() + "(" + a + ")", ok
 		}
+		if x.Fun != nil && x.Recv != nil && len(x.Args) == 1 && x.Fun.Name() == "Get" && r.v.isSelf(x.Recv) {
+			a, ok := r.cell(x.Args[0])
+			return "Get(" + a + ")", ok // what the receiver's own getter hands back under that key / at that index (it panics when there is none)
+		}
 		if x.Fun != nil && x.Recv == nil && len(x.Args) == 1 {
 			if kind, isCtor := r.c.wrapperCtor(x.Fun); isCtor {
 				if _, isConv := x.Args[0].(TConv); !isConv {
@@ -777,6 +781,8 @@ func (r *seqRun) exec(steps []Step) bool {
 				}
 				r.fail("sort.Ints on something that is not the index argument list")
 				return false
+			case call.Recv == nil && call.Fun.Pkg() == r.c.Types && len(call.Args) == 0 && (call.Fun.Name() == "NewList" || call.Fun.Name() == "NewObject"):
+				// an empty container: its spine is created when it is first touched
 			case call.Recv == nil && call.Fun.Pkg() == r.c.Types && len(call.Args) > 0 && (call.Fun.Name() == "NewList" || call.Fun.Name() == "NewObject"):
 				// the public constructor with values: the conversion of each, in order (NewList: C05.R9's constructor; NewObject: Set of the pairs, C06.R1)
 				var cs []string
@@ -823,6 +829,23 @@ func (r *seqRun) exec(steps []Step) bool {
 			case call.Recv != nil && strings.HasPrefix(r.containerKey(call.Recv), "new:") && call.Fun.Name() == "Set":
 				// Set on the object being built: plain map assignment of the conversion of each value (C06.R1)
 				id, ok := r.objectMap(call.Recv)
+				if ok && call.Site != nil && call.Site.Ellipsis.IsValid() && len(call.Args) == 1 {
+					// Set(pairs...): the collected pairs, in order
+					src, okS := r.slice(call.Args[0])
+					if !okS {
+						return false
+					}
+					cs := r.cells(r.cur, src)
+					if len(cs)%2 != 0 {
+						r.panic = "Set with an odd number of values"
+						return false
+					}
+					for i := 0; i+1 < len(cs); i += 2 {
+						r.cur.maps[id].set(cs[i], "pv("+cs[i+1]+")")
+					}
+					r.snapshot(st.Heap)
+					continue
+				}
 				args := unpack(call.Args)
 				if !ok || len(args)%2 != 0 {
 					r.fail("Set the model cannot follow: " + r.c.termStr(*call))
@@ -846,13 +869,24 @@ func (r *seqRun) exec(steps []Step) bool {
 					return false
 				}
 				vals := r.cells(r.cur, sp)
-				for _, a := range unpack(call.Args) {
-					c, ok := r.cell(a)
-					if !ok {
+				if call.Site != nil && call.Site.Ellipsis.IsValid() && len(call.Args) == 1 {
+					// Add(values...): the collected values, in order, converted by this one call
+					src, okS := r.slice(call.Args[0])
+					if !okS {
 						return false
 					}
-					r.convs++
-					vals = append(vals, "pv("+c+")#"+itoa(r.convs))
+					for _, c := range r.cells(r.cur, src) {
+						vals = append(vals, "pv("+c+")")
+					}
+				} else {
+					for _, a := range unpack(call.Args) {
+						c, ok := r.cell(a)
+						if !ok {
+							return false
+						}
+						r.convs++
+						vals = append(vals, "pv("+c+")#"+itoa(r.convs))
+					}
 				}
 				n := len(vals)
 				r.cur.spine[k] = seqSlice{id: r.newArr(append(vals, "stale", "stale")), len: n, cap: n + 2}
@@ -1517,11 +1551,13 @@ func (c *Ctx) foldBuildInto(v *sxView, p *Path, operand Term, par types.Object, 
 			r.v = &cp
 		}
 		r.cur = newSeqState()
-		if operand != nil {
+		if operand != nil || par != nil {
 			r.opndLen = k
 			r.opnd = func(t Term) bool {
-				return sameTerm(t, operand) || sameTerm(t, TProj{operand, 0}) || (par != nil && isParamTerm(t, par))
+				return (operand != nil && (sameTerm(t, operand) || sameTerm(t, TProj{operand, 0}))) || (par != nil && isParamTerm(t, par))
 			}
+		}
+		if operand != nil {
 			if intoRecv {
 				r.cur.spine["recv"] = seqSlice{id: r.newArr(append(elems("e", k), "stale", "stale")), len: k, cap: k + 2}
 			}
